@@ -3,6 +3,7 @@ package main
 import (
 	"go/ast"
 	"go/token"
+	"strconv"
 	"strings"
 )
 
@@ -509,7 +510,7 @@ func init() {
 
 func init() {
 	register(&Rule{
-		Name: "pseudo-headers-once", Props: []string{"C20", "C01"}, Engine: "AST", Floor: 9,
+		Name: "pseudo-headers-once", Props: []string{"C20", "C01"}, Engine: "AST", Floor: 10,
 		Doc: "a request's pseudo-header fields: each of :method, :path, :scheme and :authority is accepted at most once per request (its seen-mark is tested, rejecting with a PROTOCOL_ERROR stream error through rejectBlock, before it is set) and reaches the fasthttp request where the handler looks for it (method, request URI, scheme, Host both as the request's host and as a header field); any other pseudo-header is rejected the same way (RFC 7540 8.1.2.1, 8.1.2.3)",
 		Run: func(p *Prog, r *Out) {
 			fd := p.decl("(*serverConn).handleHeaderFrame")
@@ -520,7 +521,7 @@ func init() {
 			r.fn("(*serverConn).handleHeaderFrame")
 			type spec struct {
 				name, mark string
-				stores      []string
+				stores     []string
 			}
 			specs := map[string]spec{
 				"bytes.Equal(k,StringMethod)":    {":method", "strm.pseudoMethod", []string{"req.Header.SetMethodBytes(v)"}},
@@ -589,7 +590,92 @@ func init() {
 					r.bad(sp.name+" is accepted once", p.pos(fd.Pos()), "no case for "+sp.name+" in the pseudo-header switch of handleHeaderFrame")
 				}
 			}
+			// :scheme is kept on the stream and put into the request URI once the block is complete (doing it earlier parses the URI early)
+			if hf := p.decl("(*serverConn).handleFrame"); hf != nil {
+				r.fn("(*serverConn).handleFrame")
+				okS := false
+				ast.Inspect(hf.Body, func(n ast.Node) bool {
+					ifs, ok := n.(*ast.IfStmt)
+					if !ok || squash(p.text(ifs.Cond)) != "fr.Flags().Has(FlagEndHeaders)" {
+						return true
+					}
+					t := stmtTexts(p, ifs.Body.List)
+					vi, si := -1, -1
+					for i, x := range t {
+						if strings.HasPrefix(x, "iferr:=validateRequestPseudoHeaders(strm);err!=nil{") {
+							vi = i
+						}
+						if x == "strm.ctx.Request.URI().SetSchemeBytes(strm.scheme)" {
+							si = i
+						}
+					}
+					if vi >= 0 && si > vi {
+						okS = true
+					}
+					return true
+				})
+				r.check(okS, ":scheme reaches the request URI when the block is complete", p.pos(hf.Pos()), "under END_HEADERS, after validateRequestPseudoHeaders: Request.URI().SetSchemeBytes(strm.scheme)", "the scheme the client sent no longer reaches the request's URI once the header block is complete: the handler sees fasthttp's default scheme whatever :scheme said")
+			}
 			r.check(defReject, "any other pseudo-header is rejected", p.pos(fd.Pos()), "default: reject (stream error PROTOCOL_ERROR)", "a pseudo-header that is not one of the four request pseudo-headers (:status, say) is no longer a stream error")
+		},
+	})
+}
+
+// precededBy: walking from n up to root, some earlier sibling statement at one
+// of the levels satisfies pred.
+func precededBy(p *Prog, root ast.Node, n ast.Node, pred func(ast.Stmt) bool) bool {
+	pm := p.pmFor(n)
+	child := n
+	for cur := pm[child]; cur != nil; child, cur = cur, pm[cur] {
+		var list []ast.Stmt
+		switch b := cur.(type) {
+		case *ast.BlockStmt:
+			list = b.List
+		case *ast.CommClause:
+			list = b.Body
+		case *ast.CaseClause:
+			list = b.Body
+		}
+		for _, st := range list {
+			if st.Pos() >= child.Pos() {
+				break
+			}
+			if pred(st) {
+				return true
+			}
+		}
+		if cur == root {
+			break
+		}
+	}
+	return false
+}
+
+func init() {
+	register(&Rule{
+		Name: "response-body-closed-with-the-response", Props: []string{"C17", "C13"}, Engine: "AST", Floor: 2,
+		Doc: "a streamed response body is closed when the response is over, however it ends: every place sendData reports the response finished (sent in full, or given up after a failed Read) has closed the body stream first. What is behind the stream (a file, the pipe of a stream writer whose goroutine sits in a write to it) stays open otherwise, for as long as the process lives",
+		Run: func(p *Prog, r *Out) {
+			fd := p.decl("(*serverConn).sendData")
+			if fd == nil {
+				r.undecided("sendData", "?", "(*serverConn).sendData no longer resolves")
+				return
+			}
+			r.fn("(*serverConn).sendData", "(*serverConn).closeBodyStream")
+			n := 0
+			ast.Inspect(fd.Body, func(x ast.Node) bool {
+				ret, ok := x.(*ast.ReturnStmt)
+				if !ok || len(ret.Results) != 1 || p.text(ret.Results[0]) != "true" {
+					return true
+				}
+				n++
+				closed := precededBy(p, fd.Body, ret, func(st ast.Stmt) bool { return squash(p.text(st)) == "sc.closeBodyStream(strm)" })
+				r.check(closed, "sendData return "+strconv.Itoa(n)+" reports a finished response with its body stream closed", p.pos(ret.Pos()), "sc.closeBodyStream(strm) before return true", "sendData reports the response finished ("+p.pos(ret.Pos())+") without having closed its body stream: a file stays open, a stream writer's goroutine stays blocked in its pipe")
+				return true
+			})
+			if n == 0 {
+				r.undecided("sendData returns", "?", "no `return true` in sendData")
+			}
 		},
 	})
 }
